@@ -2,6 +2,31 @@
 //! false, so "no allocation on any path for any input within the bound" is a reachability verdict of the solver.
 #![allow(dead_code, unused_imports)]
 #[cfg(kani)]
+macro_rules! hash_no_alloc {
+    ($name:ident, |$e:ident, $symtab:ident, $strtab:ident, $q:ident| $body:block) => {
+        #[kani::proof]
+        #[kani::stub(std::alloc::alloc, no_alloc)]
+        #[kani::stub(std::alloc::alloc_zeroed, no_alloc)]
+        #[kani::stub(std::alloc::realloc, no_realloc)]
+        #[kani::unwind(7)]
+        pub fn $name() {
+            let $e = AnyEndian::Little;
+            let mut syms = [0u8; 48];
+            w32(&mut syms, 16, kani::any());
+            w32(&mut syms, 32, kani::any());
+            let $symtab: SymbolTable<'_, AnyEndian> = ParsingTable::new($e, Class::ELF32, &syms);
+            let sb: [u8; 5] = [kani::any(), kani::any(), kani::any(), kani::any(), 0];
+            let $strtab = StringTable::new(&sb);
+            let qb: [u8; 2] = kani::any();
+            let ql: usize = kani::any();
+            kani::assume(ql <= 2);
+            let $q = &qb[..ql];
+            $body
+        }
+    };
+}
+
+#[cfg(kani)]
 pub mod z {
     use core::alloc::Layout;
     use elf::endian::{AnyEndian, EndianParse};
@@ -151,36 +176,21 @@ pub mod z {
         kani::cover!(r.is_err(), "rejected header");
     }
 
-    fn w32(buf: &mut [u8], pos: usize, v: u32) {
+    pub fn w32(buf: &mut [u8], pos: usize, v: u32) {
         let b = v.to_le_bytes();
         buf[pos] = b[0];
         buf[pos + 1] = b[1];
         buf[pos + 2] = b[2];
         buf[pos + 3] = b[3];
     }
-    fn w16(buf: &mut [u8], pos: usize, v: u16) {
+    pub fn w16(buf: &mut [u8], pos: usize, v: u16) {
         let b = v.to_le_bytes();
         buf[pos] = b[0];
         buf[pos + 1] = b[1];
     }
 
-    /// hash lookups on small tables with symbolic bucket / chain / bloom words, symbol names and query (ELF32 LE)
-    #[kani::proof]
-    #[kani::stub(std::alloc::alloc, no_alloc)]
-    #[kani::stub(std::alloc::alloc_zeroed, no_alloc)]
-    #[kani::stub(std::alloc::realloc, no_realloc)]
-    #[kani::unwind(7)]
-    pub fn hash_find_no_alloc() {
-        let e = AnyEndian::Little;
-        let mut syms = [0u8; 48];
-        w32(&mut syms, 16, kani::any());
-        w32(&mut syms, 32, kani::any());
-        let symtab: SymbolTable<'_, AnyEndian> = ParsingTable::new(e, Class::ELF32, &syms);
-        let sb: [u8; 5] = [kani::any(), kani::any(), kani::any(), kani::any(), 0];
-        let strtab = StringTable::new(&sb);
-        let q: [u8; 2] = kani::any();
-        let ql: usize = kani::any();
-        kani::assume(ql <= 2);
+    // hash lookups on small tables with symbolic bucket / chain / bloom words, symbol names and query (ELF32 LE)
+    hash_no_alloc!(sysv_find_no_alloc, |e, symtab, strtab, q| {
         // SysV: nbucket=2, nchain=3, every bucket and chain word symbolic (cycles and out-of-range links included)
         let mut tab = [0u8; 28];
         w32(&mut tab, 0, 2);
@@ -191,9 +201,46 @@ pub mod z {
         w32(&mut tab, 20, kani::any());
         w32(&mut tab, 24, kani::any());
         if let Ok(t) = SysVHashTable::new(e, Class::ELF32, &tab) {
-            let r = t.find(&q[..ql], &symtab, &strtab);
+            let r = t.find(q, &symtab, &strtab);
             kani::cover!(r.is_err(), "SysV lookup error path");
         }
+    });
+    /// lazy tables, string table, notes on symbolic bytes
+    #[kani::proof]
+    #[kani::stub(std::alloc::alloc, no_alloc)]
+    #[kani::stub(std::alloc::alloc_zeroed, no_alloc)]
+    #[kani::stub(std::alloc::realloc, no_realloc)]
+    #[kani::unwind(8)]
+    pub fn views_no_alloc() {
+        let buf: [u8; 24] = kani::any();
+        let len: usize = kani::any();
+        kani::assume(len <= 24);
+        let data = &buf[..len];
+        let e = if kani::any() { AnyEndian::Little } else { AnyEndian::Big };
+        let t: SymbolTable<'_, AnyEndian> = ParsingTable::new(e, Class::ELF32, data);
+        let _ = t.get(kani::any());
+        let _ = t.iter().next();
+        let st = StringTable::new(&data[..if len > 6 { 6 } else { len }]);
+        let _ = st.get_raw(kani::any());
+        let _ = st.get(kani::any());
+        let mut ni = NoteIterator::new(e, Class::ELF64, kani::any(), data);
+        let _ = ni.next();
+    }
+}
+
+#[cfg(kani)]
+pub mod zs {
+    //! thorough tier: GNU hash lookups and symbol-version queries under the allocator stub
+    use super::z::*;
+    use elf::endian::AnyEndian;
+    use elf::file::Class;
+    use elf::gnu_symver::{SymbolVersionTable, VerDefIterator, VerNeedIterator, VersionIndexTable};
+    use elf::hash::{GnuHashTable, SysVHashTable};
+    use elf::parse::ParsingTable;
+    use elf::string_table::StringTable;
+    use elf::symbol::SymbolTable;
+
+    hash_no_alloc!(gnu_find_no_alloc, |e, symtab, strtab, q| {
         // GNU: nbucket=1, symoffset, bloom size 1, shift, bloom word, bucket, two chain words: all symbolic but the counts
         let mut g = [0u8; 32];
         w32(&mut g, 0, 1);
@@ -205,61 +252,10 @@ pub mod z {
         w32(&mut g, 24, kani::any());
         w32(&mut g, 28, kani::any());
         if let Ok(t) = GnuHashTable::new(e, Class::ELF32, &g) {
-            let r = t.find(&q[..ql], &symtab, &strtab);
+            let r = t.find(q, &symtab, &strtab);
             kani::cover!(matches!(r, Ok(None)), "GNU lookup miss");
         }
-    }
-
-    const LONG: usize = 72;
-    /// hash chains much longer than any sample's (71 links; optionally closed into a cycle): constant tables, symbolic query.
-    /// A lookup that starts to allocate once a walk gets long (visited-set, collected candidates) is reached here.
-    #[kani::proof]
-    #[kani::stub(std::alloc::alloc, no_alloc)]
-    #[kani::stub(std::alloc::alloc_zeroed, no_alloc)]
-    #[kani::stub(std::alloc::realloc, no_realloc)]
-    #[kani::unwind(75)]
-    pub fn hash_long_chain_no_alloc() {
-        let e = AnyEndian::Little;
-        // 72 symbols, all named "" (offset 0) except the last one ("zz" at offset 1)
-        let mut syms = [0u8; 16 * LONG];
-        w32(&mut syms, 16 * (LONG - 1), 1);
-        let symtab: SymbolTable<'_, AnyEndian> = ParsingTable::new(e, Class::ELF32, &syms);
-        let sb: [u8; 4] = [0, b'z', b'z', 0];
-        let strtab = StringTable::new(&sb);
-        let q: [u8; 2] = kani::any();
-        kani::assume(q[0] != 0 && q[1] != 0);
-        let cyclic: bool = kani::any();
-        // SysV: one bucket -> 1 -> 2 -> ... -> 71 -> (0 | 1)
-        let mut tab = [0u8; 12 + 4 * LONG];
-        w32(&mut tab, 0, 1);
-        w32(&mut tab, 4, LONG as u32);
-        w32(&mut tab, 8, 1);
-        let mut i = 1;
-        while i < LONG {
-            w32(&mut tab, 12 + 4 * i, if i + 1 < LONG { (i + 1) as u32 } else if cyclic { 1 } else { 0 });
-            i += 1;
-        }
-        let t = SysVHashTable::new(e, Class::ELF32, &tab).unwrap();
-        let r = t.find(&q, &symtab, &strtab);
-        kani::cover!(matches!(r, Ok(Some((71, _)))), "SysV: symbol at the end of a 71-link chain found");
-        kani::cover!(matches!(r, Ok(None)) && cyclic, "SysV: miss on a cyclic chain");
-        // GNU: one bucket, symoffset 1, all-ones bloom word, 71 chain words without stop bit that never match, stop bit on the last
-        let mut g = [0u8; 24 + 4 * (LONG - 1)];
-        w32(&mut g, 0, 1);
-        w32(&mut g, 4, 1);
-        w32(&mut g, 8, 1);
-        w32(&mut g, 12, 0);
-        w32(&mut g, 16, 0xffff_ffff);
-        w32(&mut g, 20, 1);
-        let mut i = 0;
-        while i < LONG - 1 {
-            w32(&mut g, 24 + 4 * i, if i + 2 < LONG { 2 } else { 3 });
-            i += 1;
-        }
-        let t = GnuHashTable::new(e, Class::ELF32, &g).unwrap();
-        let r = t.find(&q, &symtab, &strtab);
-        kani::cover!(matches!(r, Ok(None)), "GNU: miss after a 71-word chain");
-    }
+    });
 
     /// symbol-version queries (requirement and definition) on small version sections with symbolic ids / flags / links
     #[kani::proof]
@@ -272,8 +268,10 @@ pub mod z {
         let strs: [u8; 6] = [0, b'a', 0, b'l', kani::any(), 0];
         // verneed: one file record (cnt symbolic <= 2) + two aux records; vn_aux / vna_next / names symbolic
         let mut need = [0u8; 48];
+        let cnt: u16 = kani::any();
+        kani::assume(cnt <= 2);
         w16(&mut need, 0, 1);
-        w16(&mut need, 2, kani::any());
+        w16(&mut need, 2, cnt);
         w32(&mut need, 4, kani::any());
         w32(&mut need, 8, kani::any());
         w32(&mut need, 12, 0);
@@ -288,8 +286,10 @@ pub mod z {
         let mut def = [0u8; 28];
         w16(&mut def, 0, 1);
         w16(&mut def, 2, kani::any());
+        let dcnt: u16 = kani::any();
+        kani::assume(dcnt <= 1);
         w16(&mut def, 4, kani::any());
-        w16(&mut def, 6, kani::any());
+        w16(&mut def, 6, dcnt);
         w32(&mut def, 8, kani::any());
         w32(&mut def, 12, kani::any());
         w32(&mut def, 16, kani::any());
@@ -315,27 +315,6 @@ pub mod z {
         }
     }
 
-    /// lazy tables, string table, notes on symbolic bytes
-    #[kani::proof]
-    #[kani::stub(std::alloc::alloc, no_alloc)]
-    #[kani::stub(std::alloc::alloc_zeroed, no_alloc)]
-    #[kani::stub(std::alloc::realloc, no_realloc)]
-    #[kani::unwind(8)]
-    pub fn views_no_alloc() {
-        let buf: [u8; 24] = kani::any();
-        let len: usize = kani::any();
-        kani::assume(len <= 24);
-        let data = &buf[..len];
-        let e = if kani::any() { AnyEndian::Little } else { AnyEndian::Big };
-        let t: SymbolTable<'_, AnyEndian> = ParsingTable::new(e, Class::ELF32, data);
-        let _ = t.get(kani::any());
-        let _ = t.iter().next();
-        let st = StringTable::new(&data[..if len > 6 { 6 } else { len }]);
-        let _ = st.get_raw(kani::any());
-        let _ = st.get(kani::any());
-        let mut ni = NoteIterator::new(e, Class::ELF64, kani::any(), data);
-        let _ = ni.next();
-    }
 }
 
 #[cfg(kani)]
